@@ -135,3 +135,32 @@ func VerifC12ExactNum(k int) {
 	r, err := exactNum(i)
 	vrt.Assert(err == nil && r == vals.Num(i), "exact-num of an exact number is that number")
 }
+
+// VerifC12RatConvert: rationals a/b with a constant denominator b and a
+// numerator |a| = base + low, base one of several concrete magnitudes in
+// [b*2^53, 2^62) and low a symbolic `bits`-bit window, a not a multiple of b:
+// the conversion must give the nearest double. Oracle: with q = |a| div b the
+// true value lies strictly between q and q+1, and at this magnitude doubles
+// are at least 2 apart, so round-to-nearest of the value equals
+// round-to-nearest of q + 1/2, i.e. float64(2q+1)/2 (the odd integer 2q+1 is
+// never a tie; int64->float64 and the halving are exact IEEE operations).
+func VerifC12RatConvert(b, baseIdx, bits int) {
+	b64 := int64(b)
+	bases := []int64{b64 << 53, 1<<60 + 12345, 1<<62 - 1<<uint(bits), 0x2aaaaaaaaaaaaaa0, 1<<57 - 1<<uint(bits-1)}
+	low := vrt.Int64("low")
+	vrt.Assume(vrt.And(low >= 0, low < 1<<uint(bits)))
+	abs := bases[baseIdx] + low
+	neg := vrt.Bool("negative")
+	a := abs
+	if neg {
+		a = -abs
+	}
+	q, r := abs/b64, abs%b64
+	vrt.Assume(r != 0)
+	got := vals.ConvertToFloat64(vrt.MakeRat(a, b64))
+	want := float64(2*q+1) / 2
+	if neg {
+		want = -want
+	}
+	vrt.Assert(verifSameFloat(got, want), "a rational converts to the nearest double")
+}
